@@ -40,3 +40,5 @@ Definition commands_except : list (string * (string * bool)) := [("NotFound", ("
 (* tripwires: the regex literals found in handle_options / handle_commands *)
 Definition regex_handle_options : list string := ["^/[\w=]+([\s,.\-:;|+]+/[\w=]+)*\s*$"; "[,.\-/:;|+]"; "\s*(?P<keywords>(\s+[\w=]+)+)\s*$"].
 Definition regex_handle_commands : list string := ["^/\w"; "%s[\s:]*(?P<command>[A-Za-z_]+[^= ,])(?P<args>.*)$"].
+(* the bypass names of bert_e/settings.py (PrAuthorsOptions), observed on the live loader *)
+Definition pr_author_bypass_list : list string := ["bypass_author_approval"; "bypass_jira_check"; "bypass_build_status"; "bypass_commit_size"; "bypass_incompatible_branch"; "bypass_peer_approval"; "bypass_leader_approval"].
